@@ -17,6 +17,17 @@ CHECKS = {
                      'translation (bound by replaying every explored state on the real regex).'),
 }
 
+CHECKS['C01'] = dict(
+    level='model_checking', engine='AUT', design='6 C01',
+    technique='explicit-state exploration of the product automaton (executed regex x reference built from the '
+              'pattern AST x domain tracker), exhaustive over generated patterns up to a token budget',
+    text='For every generated fnmatch pattern (all ASTs up to the token budget, full bracket/POSIX/escape menu at '
+         'small budgets) x 32 flag sets, every reachable product state is checked, which decides the property for '
+         'all names of every length; every explored state is replayed on the public API.',
+    note='Trusts CPython re._parser as the description of what re executes (bound by per-state replay on the real '
+         'matcher); reference semantics written from the documentation; cased non-ASCII code points excluded under '
+         'IGNORECASE; !(..) compared only in the shapes the statement commits to.')
+
 PENDING = {}
 
 
